@@ -398,8 +398,37 @@ func (w *world) runHistory(h History) (fails []string, trace string) {
 		for _, i := range st.Ins {
 			bs = append(bs, w.nodes[i].block)
 		}
-		if idx, err := bc.InsertChain(bs); err != nil {
+		evs := make(chan core.ChainEvent, 64)
+		evSub := bc.SubscribeChainEvent(evs)
+		idx, err := bc.InsertChain(bs)
+		evSub.Unsubscribe()
+		if err != nil {
 			return []string{fmt.Sprintf("step %d: valid block %s rejected: %v", si, w.nodes[st.Ins[idx]].name, err)}, trace
+		}
+		// the logs announced with a block that became canonical are the logs of its receipts, in order
+		close(evs)
+		for e := range evs {
+			for _, n := range w.nodes {
+				if n.block.Hash() != e.Hash {
+					continue
+				}
+				var want []*types.Log
+				for _, r := range n.receipts {
+					want = append(want, r.Logs...)
+				}
+				same := len(want) == len(e.Logs)
+				for k := 0; same && k < len(want); k++ {
+					a, b := want[k], e.Logs[k]
+					same = a.Address == b.Address && fmt.Sprint(a.Topics) == fmt.Sprint(b.Topics) && bytes.Equal(a.Data, b.Data) && a.TxIndex == b.TxIndex && a.Index == b.Index
+				}
+				if !same {
+					var got []string
+					for _, l := range e.Logs {
+						got = append(got, fmt.Sprintf("tx%d/log%d", l.TxIndex, l.Index))
+					}
+					return []string{fmt.Sprintf("step %d: logs announced for block %s are not the logs of its receipts in order: %v (%d expected)", si, n.name, got, len(want))}, trace
+				}
+			}
 		}
 		for _, i := range st.Ins {
 			imported[i] = true
